@@ -1003,3 +1003,35 @@ def lookahead_wiring(ctx, rules=("C04.f",)):
         ob("add_lookahead-stores-(terminal, lookahead)", ok, "insert(%s)" % (", ".join(S.fstr(a)[:40] for a in ins[0][3]) if ins else None), al.loc())
     for r in rules:
         ctx.floor(r, "paths of add_lookahead", m, 1)
+
+
+
+def token_type_uniqueness(ctx, rule, key, consequence):
+    """Mechanisms keyed by the *token type* of a pattern (the priority list searched by priority_of, the lookahead table of a
+    mode) stand for "the pattern" only if no two patterns of a mode carry the same token type.  `add_patterns` numbers the
+    patterns itself, but ScannerMode::new / Pattern::new accept any numbers.  The obligation holds if the build path enforces
+    uniqueness (a set of the token types seen so far whose insert/contains result leads to an error) — or if the mechanism is
+    keyed per pattern instead; on the pinned tree neither is the case (known finding)."""
+    import re
+    F = ctx.facts
+    BUILD = r"scanner_mode::ScannerMode::new$|scanner_builder::ScannerBuilder::(add_scanner_mode|add_scanner_modes|build|build_uncached)$|CompiledScannerMode::try_from_scanner_mode$|CompiledDfa::try_from_patterns$|MultiPatternNfa::try_from_patterns$|ScannerImpl as std::convert::TryFrom"
+    enforced = []
+    for fn in F.fns.values():
+        if not re.search(BUILD, fn.name):
+            continue
+        for f_ in [fn] + list(F.closures_of(fn)):
+            pv = M.Prov(f_)
+            for bb, t in f_.calls(r"(HashSet|BTreeSet|HashMap|BTreeMap)::<.*>::(insert|contains|contains_key|entry)(::<.*>)?$|<impl \[.*\]>::(contains|binary_search)$"):
+                args = t.get("args") or []
+                txt = " ".join(M.expr_str(pv.operand(a))[:200] for a in args[1:2])
+                names = " ".join(x[1] for a in args[1:2] for x in M.walk_expr(pv.operand(a)) if x[0] == "call")
+                if re.search(r"terminal_id|token_type", txt + " " + names):
+                    # ... and the answer decides between Ok and an error / panic
+                    enforced.append("%s: %s" % (M.short_name(f_.name), M.short_name(M.call_name(t))))
+    # per-pattern keying: the accepting label / priority would be the pattern's position — then priority_of would not search by type
+    po = F.fn(r"CompiledDfa::priority_of$")
+    by_type = any(re.search(r"TerminalID", f_["ty"]) for f_ in po.locals[1:po.argc + 1])
+    ok = bool(enforced) or not by_type
+    ctx.ob(rule, key, ok,
+           ("token types are checked for uniqueness on the build path (%s)" % enforced[:2]) if enforced else
+           ("keyed by the token type while nothing on the build path (ScannerMode::new .. MultiPatternNfa::try_from_patterns) keeps two patterns of a mode from carrying the same token type: %s" % consequence), po.loc())
